@@ -6,10 +6,10 @@ from checks import C01, C04, C05, C06, C08, C17
 ID = 'C16'
 FLAVOUR = {'quick': 'asan', 'thorough': 'asan'}
 NEEDS_PLAIN = True      # the memcheck cases (meta valgrind) run on the plain build under valgrind
-THEOREMS = ['Nix.C16.tag_accesses_in_bounds', 'Nix.C16.slice_accesses_in_bounds', 'Nix.C16.slice_arg_no_raw_overrun',
+THEOREMS = ['Nix.C16Typed.single_value_transfers_one_element', 'Nix.C16Typed.vector_holds_the_transfer', 'Nix.C16.tag_accesses_in_bounds', 'Nix.C16.slice_accesses_in_bounds', 'Nix.C16.slice_arg_no_raw_overrun',
             'Nix.C16.maximumExtents_length', 'Nix.C16.mtag_accesses_in_bounds',
             'Nix.St.createMultiTag_uninitialised', 'Nix.St.createFeature_uninitialised', 'Nix.St.validHandle_none', 'Nix.SizeVec.flat_access_in_bounds', 'Nix.SizeVec.flat_access_refused', 'Nix.Chunk.guess_loop_terminates', 'Nix.Chunk.loop_breaks', 'Nix.Chunk.iter_bounds', 'Nix.SizeVec.typed_access_in_bounds', 'Nix.SizeVec.typed_access_refused', 'Nix.SizeVec.sub_access_in_bounds', 'Nix.SizeVec.idx_in_bounds', 'Nix.SizeVec.idx_refused', 'Nix.SizeVec.div_divisors_nonzero', 'Nix.SizeVec.positionInData_sound']
-LEAN_MODULES = ['NixModel.Props.C16', 'NixModel.Props.C16Sizes', 'NixModel.Props.C16Chunk']
+LEAN_MODULES = ['NixModel.Props.C16Typed', 'NixModel.Props.C16', 'NixModel.Props.C16Sizes', 'NixModel.Props.C16Chunk']
 RULE = ('abuse programs on the ASan + UBSan build of the library: (a) entity-tree histories in which every kind of call is also made through stale '
         'handles (entities deleted directly or with their parent), through never-initialised handles ($-), with indices at / past the end, '
         'with names of deleted entities, on features whose data array is gone, after close; (b) the tag / multi-tag / slice retrieval inputs '
